@@ -277,7 +277,12 @@ func TestC09(t *testing.T) {
 		mt := rapid.SampledFrom(mine).Draw(rt, "type")
 		c := &HCase{Type: mt.Key()}
 		for i := rapid.IntRange(2, 4).Draw(rt, "nvalues"); i > 0; i-- {
-			_, b := canon(genDyn(rt, mt.Desc, 2, genOpts{runtime: mt.Info.Runtime, requiredProb: 10, maxMap: 2}))
+			v, b := canon(genDyn(rt, mt.Desc, 2, genOpts{runtime: mt.Info.Runtime, requiredProb: 10, maxMap: 2}))
+			if rapid.IntRange(0, 2).Draw(rt, "withunknown") == 0 {
+				// a value that carries unknown fields (as left behind by Unmarshal of newer-schema data)
+				var st varStats
+				_, b = canon(decodeRef(mt.Desc, encodeVariant(rt, v, varOpts{unknowns: true}, &st, 0)))
+			}
 			c.Values = append(c.Values, b)
 		}
 		for i := rapid.IntRange(2, 25).Draw(rt, "nops"); i > 0; i-- {
